@@ -49,3 +49,22 @@ func ShiftTable(c byte) uint64 {
 	exp := 1 + strings.IndexByte("KMGTPEZY", c)
 	return uint64(1) << (10 * uint(exp))
 }
+
+// Levels is the positive control for C16/R6: next is refilled in place while
+// cur still refers to the same backing array.
+func Levels(top []*Node) int {
+	n := 0
+	cur := top
+	var next []*Node
+	for len(cur) > 0 {
+		next = next[:0]
+		for _, nd := range cur {
+			n++
+			next = append(next, nd.Kids...)
+		}
+		cur = next
+	}
+	return n
+}
+
+type Node struct{ Kids []*Node }
